@@ -49,7 +49,7 @@ def _task(prop, tier, seed, indices, want_samples):
             faulthandler.cancel_dump_traceback_later()
             return agg
         faulthandler.cancel_dump_traceback_later()
-        agg['digests'].append((i, out['digest']))
+        agg['digests'].append((i, out['digest'][:20]))
         for v in out['violations']:
             agg['violations'].append({'index': i, 'clause': v['clause'], 'site': v['site'],
                                       'detail': v.get('detail', ''), 'case': case,
